@@ -294,7 +294,7 @@ def _outer_only(nodes):
     return res
 
 
-def encoding(ctx, o, ps: PassShape):
+def encoding(ctx, o, ps: PassShape, strict_zero: bool = True):
     """the two date-fraction formulas of one scheduler"""
     S = ps.S
     prog = ctx.prog
@@ -416,6 +416,11 @@ def encoding(ctx, o, ps: PassShape):
                 o.refute(fill, r, r, "fill returns its start date on a path that is not `remaining == 0`")
             continue
         v = exf.expand(r.value)
+        if not strict_zero and any((match("$l == 0", t) and p) or (match("$l <= 0", t) and p) or (match("not $l", t) and p) for t, p in conds) and \
+                not any(cfg.can_reach(cfg.node_containing(c_), rn0) for c_ in rc_all if cfg.node_containing(c_) is not None and rn0 is not None):
+            # C04 only asks that nothing is reserved for a task without remaining work; which date is returned then is C08's clause
+            o.site(fill, r, "no remaining work: nothing reserved")
+            continue
         resvs = _outer_only(_find(v, lambda n: parse_resv(n, S['balance'])))
         if len(resvs) != 1:
             unres = _unresolved(fill, v)
